@@ -44,10 +44,14 @@ CHECKS = {
              "length-prefixed, fixed-count and greedy collections; IntFlag leaves include a flag class with a zero member, an alias, multi-bit combinations and a "
              "member-less mask swept over the complete 8-bit wire domain (signed, unsigned, rich, pod); PackedQuat is instantiated over every child kind the "
              "library uses with W below, at (+-0.0) and above zero; evidence lists per rest-of-window spec every position in which it is exercised "
-             "(window_consuming_positions); constructor options are swept one at a time plus interacting pairs.",
+             "(window_consuming_positions); constructor options are swept one at a time plus interacting pairs; QuantizedFloat is swept over the tri-state zero_median "
+             "option x symmetric / asymmetric / nearly symmetric ranges x U8/S8/U16/S16 against an independent reference dequantiser that takes an explicit "
+             "zero_median=False literally.",
         note="Domains are boundary alphabets and covering rows, not full cross products; n-ary and depth-2 compositions use an 8-/4-leaf basis; ambiguous values "
              "(trailing NUL in Str, embedded terminators, empty payloads under IfPresent/greedy/empty_is_none, duplicate dict keys) are out of domain; "
-             "NumPy/LLSD/Forward/FHReader specs are not in the grammar; quantiser saturation is C10's. Trusted: hmc/specgen.py reference encoder and norm()."),
+             "NumPy/LLSD/Forward/FHReader specs are not in the grammar; quantiser saturation is C10's; for quantised-float leaves -0.0 and +0.0 count as equal values and "
+             "a zero under a zero median may be written as either centre code (raw-byte identity write(read(b)) == b is C10's sentence, not C08's); explicit "
+             "zero_median=True is derived wire-first because the pinned constructor ignores it. Trusted: hmc/specgen.py reference encoder and norm()."),
     "C04": dict(
         category="model_checking", design_ref="DESIGN.md §4 C04",
         technique="explicit-state BFS over the real InjectionTracker (deepcopy successors, canonical state hashing, deviation bound)",
@@ -295,7 +299,9 @@ CHECKS = {
         text="BFS over histories of object updates (full, compressed, terse, cached hit/miss/viewer-cache hit), property replies, single and multi kills, object "
              "requests, region teardown/re-track, the cache-miss timer and deferred future callbacks, delivered through the real UDP codec to a real proxy Session "
              "with two regions; the viewer object cache is a chain of two per-viewer caches (the announced entry behind a stale entry of the first cache in every "
-             "search; a cache sub-alphabet repeats the cached-update events with the chain fresh-first, disjoint and with equal entries). After every event the local-ID and full-ID indices, parent/child/orphan links, the avatar view, swallowed handler exceptions and "
+             "search; a cache sub-alphabet repeats the cached-update events with the chain fresh-first, disjoint and with equal entries); a region's viewer cache file is rewritten (CRC change, same CacheID) on every teardown "
+             "and reloaded through the real load_cache() on re-track; marking dead a region that is registered but untracked while objects claim its handle is in "
+             "the alphabet. After every event the local-ID and full-ID indices, parent/child/orphan links, the avatar view, swallowed handler exceptions and "
              "request futures are compared with an independent scene-graph model. The scene-graph sub-alphabet for one region and the request sub-alphabet for one "
              "local ID are searched to saturation; the other searches are bounded (depth 3-6, at most 3 deviations), ~1.2 million transitions in the thorough tier.",
         note="Universe of 3 full IDs (one avatar), 3 local IDs per region (2 in two-region searches), 2 regions; local-ID and region symmetry reductions; at most 2 "
